@@ -32,10 +32,20 @@ HostileOk(r) ==
     /\ 8 * dlen < L.countoff + L.countbits => r.out = "Corrupt"    \* the count field itself is cut off
     /\ r.out \in {"Corrupt", "Typed"}
 
+(* a frame with an admissible count and a body of full length whose ELEMENT bits are arbitrary: every element pattern is a  *)
+(* value (C08), so decoding returns a typed message with exactly `count` elements                                           *)
+PatchedOk(r) ==
+    LET L == EntryOf(r)
+        cnt == CountOnWire(r.frame, L) IN
+    /\ HasEntry(r) /\ Classify(r.frame) = "ok" /\ L.countoff >= 0 /\ L.elemsoff >= 0 /\ L.elembits >= 0
+    /\ (cnt <= L.cap /\ 8 * DeclLen(r.frame) >= L.elemsoff + cnt * L.elembits
+           /\ 8 * DeclLen(r.frame) - (L.elemsoff + cnt * L.elembits) < 8) =>
+          (r.out = "Typed" /\ r.dec_n = cnt)
+TracePatched == IsEvent("ListPatched") /\ PatchedOk(Rec[l]) = TRUE
 TraceRt == IsEvent("ListRt") /\ ListRtOk(Rec[l]) = TRUE
 TraceHostile == IsEvent("ListHostile") /\ HostileOk(Rec[l]) = TRUE
 Init == l = 1
-Next == TraceRt \/ TraceHostile
+Next == TraceRt \/ TraceHostile \/ TracePatched
 Explain(r) == IF HasEntry(r) THEN [list |-> EntryOf(r), out |-> r.out,
                                     count_on_wire |-> IF "frame" \in DOMAIN r /\ EntryOf(r).countoff >= 0 THEN CountOnWire(r.frame, EntryOf(r)) ELSE -1]
               ELSE [unknown_list |-> r.path]
